@@ -64,6 +64,11 @@ def compare(chk, r, o):
                 elif e["kind"] != r["v"]:
                     chk.drift.append({"path": r["s"], "error_kind_real": e["kind"], "spec": r["v"]})
         return
+    if r["rec"] == "odd":
+        if o["result"] == "ok":
+            chk.violation("a manifest whose contents node is no list of strings (explicit tag contradicting the node kind) is accepted, contents %s"
+                          % [bytes(i["value"]).decode("latin1") for i in o["items"]], rep)
+        return
     # manifest
     if (o["result"] == "ok") != r["ok"]:
         chk.violation("manifest %s but the specification says %s" % (o["result"], "accepted" if r["ok"] else "rejected"), rep)
@@ -136,6 +141,8 @@ def run(pid, tier):
         giv = run_tlc("ModFile", CFG % dict(base, mode="Given", inv="GivenOK"), sc, data_files={"modfile_given.ndjson": gf}, timeout=3000)
         if giv.violated:
             raise Infra("GivenOK violated in spec/ModFile.tla:\n" + giv.tail[-1500:])
+        odd = run_tlc("ModFile", CFG % dict(base, mode="Odd", inv="OddOK"), sc, cache=True)
+        replay_records(chk, binary, sc, odd.records, "odd")
         log("TLC: paths %d states (%.0fs), manifests %d states (%.0fs), given %d (%.0fs)" % (paths.distinct, paths.wall, man.distinct, man.wall, giv.distinct, giv.wall))
         replay_records(chk, binary, sc, paths.records, "paths")
         replay_records(chk, binary, sc, man.records, "man")
